@@ -339,3 +339,104 @@ add_case(con, "INV:Bit", VR.UnaryOp, UOp.INV, [bit_operand("a")], inv_spec)
 for K in (Unsigned, Signed):
     add_case(con, f"NEG:{KNAME[K]}", VR.UnaryOp, UOp.NEG, [vec_operand(K, "a")], lambda sx, a: view_of(sem.neg(sx, a)))
 add_case(con, "ABS:Signed", VR.UnaryOp, UOp.ABS, [vec_operand(Signed, "a")], lambda sx, a: view_of(sem.absolute(sx, a)))
+
+
+# ---- VhdlScope._format_ref: the text of one step of a reference path (slice / constant index) ---------------------
+# Lemma: with PARENT the text so far, denoting a vector of the parent's kind and width pw with bits pbits, the text
+# returned for Slice(start, stop, base_offset=[b1..bk]) denotes  bits[start+S : stop+S]  of the parent (S = sum b_i) as a
+# vector of width start-stop+1 whose VHDL type is the parent's kind (reads: cast / qualified; targets: the bare slice),
+# and the returned CoHDL type is that kind and width; for Offset(i, [b..]) it denotes bit i+S as std_logic.
+from cohdl._core._type_qualifier import Slice as _Slice, Offset as _Offset  # noqa: E402
+
+C.inline("cohdl._core._type_qualifier:Slice.simplify")
+C.inline("cohdl._core._type_qualifier:Offset.simplify")
+
+
+def ref_shape(kind, what, k):
+    names = ["pw", "pbits", "start", "stop"] + [f"b{i}" for i in range(k)]
+
+    def make(env):
+        o = tq(vec(kind, env["pw"], env["pbits"]))
+        o.fields["type"] = o.fields["_value"].cls  # TypeQualifier.type: the wrapped type
+        return o
+
+    def assume(env):
+        S = sum(env[f"b{i}"] for i in range(k)) if k else 0
+        c = [env["pw"] >= 1, env["pbits"] >= 0, env["pbits"] < P2(env["pw"])] + [env[f"b{i}"] >= 0 for i in range(k)]
+        if what == "slice":
+            # the reference lies inside the parent (established by the IR-level contracts of C13)
+            c += [env["stop"] + S >= 0, env["start"] >= env["stop"], env["start"] + S < env["pw"]]
+        else:
+            c += [env["start"] + S >= 0, env["start"] + S < env["pw"], sym.eq(env["stop"], 0)]
+        return sym.And(*c)
+
+    return Built(names, make, lambda a: "<parent>", lambda a: None, assume)
+
+
+def refspec_shape(what, k):
+    def make(env):
+        base = [env[f"b{i}"] for i in range(k)]
+        if what == "slice":
+            return SObj(_Slice, start=env["start"], stop=env["stop"], base_offset=base, obj=None)
+        return SObj(_Offset, offset=env["start"], base_offset=base, obj=None)
+
+    return Built([], make, lambda a: "<ref>", lambda a: None)
+
+
+def format_ref_spec(kind, what, k, is_target, constrain):
+    def spec(sx, scope, obj, root_name, ref_spec, is_target_, constrain_=False):
+        prim = prim_of(obj)
+        pw, pbits = width(prim), bits(prim)
+        base = ref_spec.fields["base_offset"]
+        S = sum(base) if base else 0
+        parent = VVal(VKIND[kind], pw, pbits)
+        if what == "slice":
+            lo, hi = ref_spec.fields["stop"] + S, ref_spec.fields["start"] + S
+            w = hi - lo + 1
+            want_bits = sym.pymod(sym.pydiv(pbits, P2(lo)), P2(w))
+        else:
+            w = 1
+            want_bits = sym.bit_at(pbits, ref_spec.fields["offset"] + S)
+
+        def holds(res):
+            if not (isinstance(res, tuple) and len(res) == 2):
+                return False
+            text, rtype = res
+            try:
+                v = VO.evaluate(text, {"PARENT": parent}, sx)
+            except TypeError_:
+                return False
+            if what == "offset":
+                return v.kind == "std_logic" and rtype is Bit and sym.eq(v.bits, want_bits)
+            if v.kind != VKIND[kind]:
+                return False
+            want_kind = BitVector if is_target else kind
+            if not (isinstance(rtype, SCls) and rtype.kind is want_kind):
+                return False
+            return sym.And(sym.eq(v.width, w), sym.eq(v.bits, want_bits), sym.eq(rtype.params["width"], w))
+
+        return C.Pred(holds, "text denotes the referenced bits of the parent")
+
+    return spec
+
+
+NAME = Built([], lambda env: "PARENT", lambda a: "'PARENT'", lambda a: None)
+con = contract("cohdl._compiler.backend.vhdl._vhdl_repr:VhdlScope._format_ref", PROPS + ("C13",))
+for K in (BitVector, Unsigned, Signed):
+    for k in (0, 1, 2):
+        for is_target, constrain in ((False, False), (False, True), (True, False)):
+            T = Built([], (lambda v: lambda env: v)(is_target), lambda a: repr(is_target), lambda a: None)
+            CN = Built([], (lambda v: lambda env: v)(constrain), lambda a: repr(constrain), lambda a: None)
+            c = Case(f"slice:{KNAME[K]},{k}-offsets,{'target' if is_target else 'constrained' if constrain else 'value'}", [SCOPE, ref_shape(K, "slice", k), NAME, refspec_shape("slice", k), T, CN], format_ref_spec(K, "slice", k, is_target, constrain))
+            c.native = False
+            c.may_reject = AssertionError
+            c.interp_flags = {"arith_hints": True}
+            con.cases.append(c)
+        T = Built([], lambda env: False, lambda a: "False", lambda a: None)
+        c = Case(f"offset:{KNAME[K]},{k}-offsets", [SCOPE, ref_shape(K, "offset", k), NAME, refspec_shape("offset", k), T], format_ref_spec(K, "offset", k, False, False))
+        c.native = False
+        c.may_reject = AssertionError
+        # a constant index is written as the integer itself (format_value of an int with an Integer hint)
+        c.models = [(VhdlScope.__dict__["format_value"], lambda it, self, obj, *a, **kw: SFmt([TextOf(obj)]))]
+        c.interp_flags = {"arith_hints": True}
+        con.cases.append(c)
